@@ -387,6 +387,12 @@ func (s *Service) SaveInvitation(inv *Invitation) error {
 func (s *Service) handleInboundService(serviceURL string, srvc dispatcher.ProtocolService, senderDID string,
 	attachments []*decorator.AttachmentV2, newDID *did.Doc) string {
 	for _, atchmnt := range attachments {
+		if atchmnt == nil {
+			logger.Debugf("oob/2.0 null attachment entry for url '%v', skipping it..", serviceURL)
+
+			continue
+		}
+
 		serviceRequest, err := atchmnt.Data.Fetch()
 		if err != nil {
 			logger.Debugf("oob/2.0 fetching target service '%v' for url '%v' attachment request failed:"+
